@@ -46,16 +46,22 @@ def _worker_init(modname, tier, seed, base):
     d = os.path.join(base, f'w{os.getpid()}')
     os.makedirs(d, exist_ok=True)
     _W['scratch'] = d
+    from gverif import evidence as _ev
+    _findings = _ev.load_known_findings()
+    _pid = _W['mod'].PID
+    _ev.Stats.KNOWN = lambda sig: _ev.match_known(_pid, sig, _findings) is not None
     init = getattr(_W['mod'], 'worker_init', None)
     if init:
         init(tier, seed, d)
 
 
 def _worker_run(spec):
-    from gverif.evidence import Stats
+    from gverif.evidence import Stats, TooManyViolations
     try:
         st = _W['mod'].run_shard(spec, _W['tier'], _W['seed'], _W['scratch'])
         return ('ok', st)
+    except TooManyViolations as e:
+        return ('ok', e.stats)
     except BaseException:
         st = Stats()
         return ('err', f'shard {spec!r}:\n{traceback.format_exc()}')
@@ -107,13 +113,35 @@ def main(argv=None):
         errors = []
         if args.jobs > 1 and len(specs) > 1:
             ctx = multiprocessing.get_context('fork')
+            cap = float(os.environ.get('VERIF_WALL_CAP') or (900 if args.tier == 'quick' else 4 * 3600))
             with ctx.Pool(min(args.jobs, len(specs)), _worker_init,
                           (modname, args.tier, seed, base)) as pool:
-                for kind, res in pool.imap_unordered(_worker_run, specs, chunksize=1):
+                it = pool.imap_unordered(_worker_run, specs, chunksize=1)
+                done = 0
+                aborted = 0
+                while done < len(specs):
+                    left = cap - (time.time() - t0)
+                    try:
+                        kind, res = it.next(timeout=max(left, 0.1))
+                    except multiprocessing.TimeoutError:
+                        # wall-clock cap: stop, report what the completed shards found and say so
+                        total.capped = True
+                        total.notes.append(f'wall cap {cap:.0f}s hit after {done} of {len(specs)} shards; '
+                                           'the remaining shards were not explored')
+                        pool.terminate()
+                        break
+                    done += 1
                     if kind == 'ok':
+                        aborted += bool(res.capped)
                         total.merge(res)
                     else:
                         errors.append(res)
+                    if aborted >= 2 * args.jobs:
+                        # shard after shard drowns in violations: enough evidence, stop here
+                        total.notes.append(f'{aborted} shards stopped early on too many violations; '
+                                           f'run ended after {done} of {len(specs)} shards')
+                        pool.terminate()
+                        break
         else:
             _worker_init(modname, args.tier, seed, base)
             for s in specs:
@@ -190,6 +218,9 @@ def main(argv=None):
             print(f'  {v["message"]}')
             print(f'VIOLATION property={pid} replay={p}')
             rc = 1
+        if total.capped and not new_violations and not known_lines:
+            errors.append('wall-clock cap hit before the space was explored and no violation was found so far: '
+                          'the property was NOT decided by this run')
         if errors:
             for e in errors:
                 print(f'HARNESS-ERROR {pid}: {e}')
